@@ -475,3 +475,82 @@ Definition quiet (s : st) : bool :=
 Definition default_pool : R st := pool_new true (nn POOL_DEFAULT_SIZE).
 Definition default_buf_len : N := POOL_DEFAULT_BUF_LEN.
 Definition buf_group : N := BUF_GROUP.
+
+(* ---------------------------------------------------------------------- *)
+(* the runtime-level multishot stream: the re-submission loop of
+   SubmitMultiStream::poll_next over SubmitMultiManaged::poll_next
+   (compio-runtime/src/future/stream.rs).  Every question the loop asks its
+   environment (the inner managed stream, the factory that builds the next
+   operation) consumes one scheduled answer, so the loop is a structural
+   recursion and a spin without progress cannot be written.                 *)
+
+(* what SubmitMulti (the raw stream over one operation) yields *)
+Inductive raw_item :=
+| RawPending
+| RawMore (r : rescls) (oid : option nat)      (* a completion with MORE and the buffer id of its flags *)
+| RawFinal (r : rescls) (obuf : option nat)    (* the final result; the BufferRef inside the operation *)
+| RawDone.                                     (* the raw stream is finished *)
+
+(* what SubmitMultiManaged::poll_next answers *)
+Inductive mitem :=
+| MPending
+| MBuf (id : nat) (empty : bool)     (* Some(Ok(Some(buffer))) *)
+| MNoBuf                             (* Some(Ok(None)) *)
+| MErr (r : rescls)                  (* Some(Err(e)) *)
+| MEnd.                              (* None *)
+
+Definition is_err (r : rescls) : bool := match r with ROk | RZero => false | _ => true end.
+
+(* `slot_some id` = BufferPool::take(id) finds the buffer in its slot *)
+Definition managed_poll (x : raw_item) (slot_some : nat -> bool) : mitem :=
+  match x with
+  | RawPending => MPending
+  | RawFinal r obuf =>
+    (* let b = op.take_buffer(); let res = res?; ...  (an Err drops b: the buffer is reset) *)
+    if is_err r then MErr r
+    else match obuf with Some id => MBuf id (rescls_eqb r RZero) | None => MNoBuf end
+  | RawMore r oid =>
+    (* let b = pool.take(extra.buffer_id()?)?; let res = res?; *)
+    match oid with
+    | None => MErr RErr
+    | Some id =>
+      if is_err r then MErr r
+      else if slot_some id then MBuf id (rescls_eqb r RZero) else MNoBuf
+    end
+  | RawDone => MEnd
+  end.
+
+(* answers of the environment of the loop *)
+Inductive sans :=
+| AInner (m : mitem)               (* the current managed stream is polled *)
+| ACreate (e : option rescls).     (* factory.create(): None = a new operation, Some e = Err(e) *)
+
+Inductive sout := SPending | SItem (id : nat) | SEnd | SErr (r : rescls) | SBad.
+
+(* SubmitMultiStream::poll_next; returns what the consumer's next() gets and
+   whether an operation is still installed *)
+Fixpoint stream_poll (has_op cancelled : bool) (sched : list sans) : sout * bool :=
+  match sched with
+  | [] => (SBad, has_op)
+  | a :: rest =>
+    if has_op then
+      match a with
+      | AInner MPending => (SPending, true)
+      | AInner (MBuf id empty) => (if empty then SEnd else SItem id, true)
+      | AInner MNoBuf => (SEnd, true)
+      | AInner (MErr r) => (SErr r, true)            (* Some(Err(e)) => break Ready(Some(Err(e))) *)
+      | AInner MEnd => stream_poll false cancelled rest   (* None => self.op = None *)
+      | ACreate _ => (SBad, true)
+      end
+    else if cancelled then (SEnd, false)
+    else
+      match a with
+      | ACreate None => stream_poll true cancelled rest
+      | ACreate (Some r) => (SErr r, false)          (* Err(e) => break Ready(Some(Err(e))) *)
+      | AInner _ => (SBad, false)
+      end
+  end.
+
+(* n times: the operation ended before EOF and was re-created *)
+Fixpoint rearm (n : nat) : list sans :=
+  match n with O => [] | S m => AInner MEnd :: ACreate None :: rearm m end.
